@@ -33,6 +33,21 @@ def main():
             out.append(dict(opoints=[[float(v) for v in p] for p in o], xpoints=[[float(v) for v in p] for p in x]))
         except Exception as e:
             out.append(dict(error=repr(e)[:300]))
+    # analytic sheared double nulls psi = A(z) + k/2 (R - R0 - s(z))^2, A = z^2/2 - z^4/(4 Zx^2), s = sigma (z^2 - Zx^2)/(2 Zx), z = Z - Z0:
+    # O-point (R0 - sigma Zx/2, Z0), X-points (R0, Z0 +- Zx) at the SAME major radius, at sub-grid positions (one X-point can be a grid minimum of Bp^2 on two
+    # neighbouring rows, so that it is reached from two start cells with a candidate of the other X-point in between)
+    sheared = []
+    for c in req.get("sheared_cases", []):
+        r1d = np.linspace(c["rmin"], c["rmax"], c["n"])
+        z1d = np.linspace(c["zmin"], c["zmax"], c["n"])
+        R, Z = np.meshgrid(r1d, z1d, indexing="ij")
+        z = Z - c["Z0"]
+        psi = z**2 / 2 - z**4 / (4 * c["Zx"] ** 2) + 0.5 * c["k"] * (R - c["R0"] - c["sigma"] * (z**2 - c["Zx"] ** 2) / (2 * c["Zx"])) ** 2
+        try:
+            o, x = critical.find_critical(R, Z, psi, 1.0e-6, 100)
+            sheared.append(dict(opoints=[[float(v) for v in p] for p in o], xpoints=[[float(v) for v in p] for p in x]))
+        except Exception as e:
+            sheared.append(dict(error=repr(e)[:300]))
     eqs = []
     if req.get("eq_cases"):
         import grid as G
@@ -49,7 +64,7 @@ def main():
                                 regions=list(eq.regions), legs=legs, psi_sol=float(eq.psi_sol)))
             except Exception as e:
                 eqs.append(dict(error=type(e).__name__ + ": " + str(e)[:300]))
-    print("@@JSON " + json.dumps(dict(cases=out, eqs=eqs)))
+    print("@@JSON " + json.dumps(dict(cases=out, eqs=eqs, sheared=sheared)))
     sys.stdout.flush()
     os._exit(0)
 
